@@ -782,7 +782,16 @@ namespace occa {
           vendor_ = (1 << vendorBit);
         }
 
-        io::write(outFilename, std::to_string(vendor_));
+        // Publish the result atomically: [output] is the completion marker of
+        // this cache entry, so it must never be visible empty or half-written
+        io::stageFile(
+          outFilename,
+          false,
+          [&](const std::string &tempFilename) -> bool {
+            io::write(tempFilename, std::to_string(vendor_));
+            return true;
+          }
+        );
 
         return vendor_;
       }
